@@ -65,6 +65,10 @@ func RunRobust(spec RobustSpec) vx.Out {
 				return
 			}
 		}
+		if code, b := w.Do("GET", "/nodes"); code != 200 || !strings.Contains(b, `"broadcast_address":"by"`) {
+			bad("C15 another connection's registrations changed", "%s: /nodes no longer lists the other nsqd: %d %s", when, code, b)
+			return
+		}
 		by.Cmd("PING", nil)
 		vrt.Quiesce()
 		if rs := by.Responses(); len(rs) != 1 || rs[0] != "OK" || by.Closed {
@@ -102,6 +106,14 @@ func RunRobust(spec RobustSpec) vx.Out {
 			bad("C15 connection not closed after end of input", "responses %q", rs)
 		}
 		bystander("after the connection")
+		// whatever it sent and however it ended: a connection that is gone owns nothing
+		for k, pm := range w.L.DB.registrationMap {
+			for id := range pm {
+				if id == "127.0.0.1:30002" {
+					bad("C14 C15 registration of a closed connection left in the registry", "%s/%s/%s still lists the producer of the closed connection %s", k.Category, k.Key, k.SubKey, id)
+				}
+			}
+		}
 		// invalid names are refused: nothing that breaks the naming rules is registered
 		for k := range w.L.DB.registrationMap {
 			for _, n := range []string{k.Key, k.SubKey} {
